@@ -364,6 +364,62 @@ M('C01', 'canon-fast-path-polarity', PGP, _CANON,
 M('C01', 'canon-fast-path-short-text', PGP, _CANON,
   "            if len(subject) < 64 or b'\\n' not in subject:\n                _data += subject\n\n            else:\n                _data += re.subn(br'\\r?\\n', b'\\r\\n', subject)[0]\n", 'C01.1')
 
+# ---- sixth round (wave 5): helper for the packet body, area helper in __setitem__, codec parameter of the text helpers,
+#      skipped pairs, dropped attribute subpackets, running verdict flag, NotImplemented keyed on the claimed algorithm
+TW('C01', 'twin-C01-ref14', 'C01-ref14')
+TW('C01', 'twin-C05-ref14', 'C05-ref14')
+TW('C01', 'twin-C11-ref15', 'C11-ref15')
+_BODY_OLD = "        return pub.__bytearray__()[len(pub.header):]\n"
+_BODY_NEW = "        return pub.__bodybytearray__()\n"
+_HLEN = "    def update_hlen(self):\n        self.header.length = len(self.__bytearray__()) - len(self.header)\n"
+T('C01', 'twin-body-helper', PGP, _BODY_OLD, _BODY_NEW, more=[(PT, _HLEN, "    def __bodybytearray__(self):\n        return self.__bytearray__()[len(self.header):]\n\n" + _HLEN)])
+M('C01', 'body-helper-keeps-last-header-octet', PGP, _BODY_OLD, _BODY_NEW, 'C01.1b',
+  more=[(PT, _HLEN, "    def __bodybytearray__(self):\n        return self.__bytearray__()[len(self.header) - 1:]\n\n" + _HLEN)])
+M('C01', 'body-helper-whole-packet', PGP, _BODY_OLD, _BODY_NEW, 'C01.1b',
+  more=[(PT, _HLEN, "    def __bodybytearray__(self):\n        return self.__bytearray__()\n\n" + _HLEN)])
+_SETITEM = "        d = self._unhashed_sp\n        if key.startswith('h_'):\n            d, key = self._hashed_sp, key[2:]\n            self._hashed_raw = None\n"
+T('C01', 'twin-setitem-area-identity', FL, _SETITEM, "        d = self._unhashed_sp\n        if key.startswith('h_'):\n            d, key = self._hashed_sp, key[2:]\n        if d is self._hashed_sp:\n            self._hashed_raw = None\n")
+M('C01', 'setitem-invalidates-on-unhashed-area', FL, _SETITEM, "        d = self._unhashed_sp\n        if key.startswith('h_'):\n            d, key = self._hashed_sp, key[2:]\n        if d is self._unhashed_sp:\n            self._hashed_raw = None\n", 'C01.6')
+M('C01', 'setitem-invalidation-identity-inverted', FL, _SETITEM, "        d = self._unhashed_sp\n        if key.startswith('h_'):\n            d, key = self._hashed_sp, key[2:]\n        if d is not self._hashed_sp:\n            self._hashed_raw = None\n", 'C01.6')
+_B2T = "    def bytes_to_text(text):\n        if text is None or isinstance(text, str):\n            return text\n\n        return text.decode('utf-8')\n"
+_B2T_P = "    def bytes_to_text(text, encoding='utf-8'):\n        if text is None or isinstance(text, str):\n            return text\n\n        return text.decode(encoding)\n"
+_MSG = "            return self.bytes_to_text(self._message)\n"
+T('C01', 'twin-text-helper-codec-parameter', TY, _B2T, _B2T_P, more=[(PGP, _MSG, "            return self.bytes_to_text(self._message, encoding='utf-8')\n")])
+M('C01', 'text-helper-called-with-utf16', TY, _B2T, _B2T_P, 'C01.7', more=[(PGP, _MSG, "            return self.bytes_to_text(self._message, encoding='utf-16')\n")])
+M('C01', 'text-helper-default-codec-lossy', TY, _B2T, _B2T_P.replace("encoding='utf-8'", "encoding='utf-7'"), 'C01.7')
+M('C01', 'text-helper-errors-parameter-replace', TY, _B2T, "    def bytes_to_text(text, errors='replace'):\n        if text is None or isinstance(text, str):\n            return text\n\n        return text.decode('utf-8', errors)\n", 'C01.7')
+_VERIFY_CALL = "                    verified = self._key.verify(sig.hashdata(subj), sig.__sig__, getattr(hashes, sig.hash_algorithm.name)())\n"
+for _p, _r in (('C01', 'C01.2'), ('C17', 'C17.3')):
+    M(_p, 'unknown-hash-algorithm-skipped', PGP, _VERIFY_CALL,
+      "                    try:\n                        hasher = getattr(hashes, sig.hash_algorithm.name)()\n                    except AttributeError:\n                        continue\n                    verified = self._key.verify(sig.hashdata(subj), sig.__sig__, hasher)\n", _r)
+    M(_p, 'foreign-signer-skipped-in-loop', PGP, "        for sig, subj in sspairs:\n", "        for sig, subj in sspairs:\n            if sig.signer is None:\n                continue\n", _r)
+_UA_PARSE = "        sp = UserAttribute(packet)\n        self[sp.__class__.__name__] = sp\n"
+_UA_BA = "    _spmodule = userattribute\n\n    def __bytearray__(self):\n        _bytes = bytearray()\n        for uhsp in self._unhashed_sp.values():\n            _bytes += uhsp.__bytearray__()\n"
+T('C01', 'twin-ua-parse-name-local', FL, _UA_PARSE, "        attribute = UserAttribute(packet)\n        name = type(attribute).__name__\n        self[name] = attribute\n")
+M('C01', 'ua-unknown-subpacket-dropped', FL, _UA_PARSE, "        sp = UserAttribute(packet)\n        if sp.__class__.__name__ == 'Opaque':\n            return\n        self[sp.__class__.__name__] = sp\n", 'C01.8')
+M('C01', 'ua-subpacket-kept-only-if-image', FL, _UA_PARSE, "        sp = UserAttribute(packet)\n        if isinstance(sp, userattribute.Image):\n            self[sp.__class__.__name__] = sp\n", 'C01.8')
+M('C01', 'ua-serialiser-skips-opaque', FL, _UA_BA, _UA_BA.replace("            _bytes += uhsp.__bytearray__()\n", "            if uhsp.__class__.__name__ != 'Opaque':\n                _bytes += uhsp.__bytearray__()\n"), 'C01.8')
+M('C01', 'ua-serialiser-first-only', FL, _UA_BA, _UA_BA.replace("        for uhsp in self._unhashed_sp.values():\n", "        for uhsp in list(self._unhashed_sp.values())[:1]:\n"), 'C01.8')
+_SLOTS = "    __slots__ = (\"_subjects\",)\n"
+_INIT_S = "        self._subjects = []\n"
+_ADD_APP = "        self._subjects.append(self._sigsubj(issues, by, signature, subject))\n"
+def _flag(update, merge=True):
+    return [(TY, _INIT_S, _INIT_S + "        self._ok = True\n"), (TY, _BOOL, "        return self._ok"),
+            (TY, _ADD_APP, _ADD_APP + update)] + \
+           ([(TY, _AND, "        self._ok = self._ok and other._ok\n" + _AND)] if merge else [])
+_ASSIGN = "        self._ok = not (issues and issues.causes_signature_verify_to_fail)\n"
+_ACCUM = "        self._ok = self._ok and not (issues and issues.causes_signature_verify_to_fail)\n"
+for _p in ('C01', 'C17'):
+    _r = 'C01.4' if _p == 'C01' else 'C17.2'
+    T(_p, 'twin-running-flag-accumulated', TY, _SLOTS, "    __slots__ = (\"_subjects\", \"_ok\")\n", more=_flag(_ACCUM))
+    M(_p, 'running-flag-assigned', TY, _SLOTS, "    __slots__ = (\"_subjects\", \"_ok\")\n", _r, more=_flag(_ASSIGN))
+    M(_p, 'running-flag-not-merged', TY, _SLOTS, "    __slots__ = (\"_subjects\", \"_ok\")\n", _r, more=_flag(_ACCUM, merge=False))
+    M(_p, 'running-flag-or-accumulated', TY, _SLOTS, "    __slots__ = (\"_subjects\", \"_ok\")\n", _r, more=_flag(_ACCUM.replace("self._ok and not", "self._ok or not")))
+M('C17', 'ni-check-on-claimed-algorithm', PGP, "                    if verified is NotImplemented:\n                        raise NotImplementedError(sig.key_algorithm)\n",
+  "                    if not sig.key_algorithm.can_sign:\n                        raise NotImplementedError(sig.key_algorithm)\n", 'C17.4')
+M('C17', 'ni-compared-with-none', PGP, "                    if verified is NotImplemented:", "                    if verified is None:", 'C17.4')
+M('C17', 'ni-check-dropped', PGP, "                    if verified is NotImplemented:\n                        raise NotImplementedError(sig.key_algorithm)\n", "", 'C17.4')
+
 # ---- further spellings of the same functions (generalisation guards)
 T('C17', 'twin-pred-len-list', CO, _PRED,
   "        hits = [f for f in (SecurityIssues.WrongSig, SecurityIssues.Expired, SecurityIssues.Disabled, SecurityIssues.Invalid, SecurityIssues.NoSelfSignature) if f & self]\n        return len(hits) > 0")
@@ -2580,6 +2636,11 @@ M('C07', 'attrs-truthiness-compared', DE, "            if getattr(key, attr) != 
 M('C07', 'call-check-only-with-identity', DE, "                self.check_attributes(key)\n", "                if kwargs.get('user') is not None:\n                    self.check_attributes(key)\n", 'C07.5')
 M('C07', 'call-check-only-when-subkey-selected', DE, "                self.check_attributes(key)\n", "                if _key is not key:\n                    self.check_attributes(key)\n", 'C07.5')
 M('C07', 'call-unguarded-fast-path', DE, "    def __call__(self, action):\n", "    def __call__(self, action):\n        if not self.conditions:\n            return action\n\n", 'C07.5')
+# --- wave 5: export order produced by a generator helper (canon fuses the loop over it)
+_W5_EXP = "        _bytes = bytearray()\n        # us\n        _bytes += self._key.__bytearray__()\n        # our signatures; ignore embedded signatures\n        for sig in iter(s for s in self._signatures if not s.embedded and s.exportable):\n            _bytes += sig.__bytearray__()\n        # one or more User IDs, followed by their signatures\n        for uid in self._uids:\n            _bytes += uid._uid.__bytearray__()\n            for s in [s for s in uid._signatures if s.exportable]:\n                _bytes += s.__bytearray__()\n        # subkeys\n        for sk in self._children.values():\n            _bytes += sk.__bytearray__()\n\n        return _bytes\n"
+_W5_GEN = "        _bytes = bytearray()\n        for component in self._export_sequence():\n            _bytes += component.__bytearray__()\n        return _bytes\n\n    def _export_sequence(self):\n        yield self._key\n        for sig in self._signatures:\n            if not sig.embedded and sig.exportable:\n                yield sig\n        for uid in self._uids:\n            yield uid._uid\n            yield from [s for s in uid._signatures if s.exportable]\n        for subkey in self._children.values():\n            yield subkey\n"
+T('C07', 'twin-export-generator-helper', PGP, _W5_EXP, _W5_GEN)
+M('C07', 'export-generator-adds-keymaterial', PGP, _W5_EXP, _W5_GEN.replace("        yield self._key\n", "        yield self._key\n        yield self._key.keymaterial\n"), 'C07.6')
 # --- wave 3: width recomputed on copy, opaque / wholesale copies into the public packet (C07.7 incl. the shared serialised-attribute rule)
 _W3_ECP = "        pk = self.__class__()\n        pk.bytelen = self.bytelen\n        pk.format = self.format\n        pk.x = copy.copy(self.x)\n        pk.y = copy.copy(self.y)"
 M('C07', 'ecpoint-copy-width-recomputed', FL, _W3_ECP, "        pk = self.__class__()\n        pk.bytelen = (max(self.x.bit_length(), self.y.bit_length()) + 7) // 8\n        pk.format = self.format\n        pk.x = copy.copy(self.x)\n        pk.y = copy.copy(self.y)", 'C07.7')
@@ -2722,6 +2783,21 @@ M('C16', 'lt-by-type', PGP, "    def __lt__(self, other):\n        return self.c
 T('C16', 'twin-insort-insert', TY, "        i = bisect.bisect_left(self, item)\n        self.rotate(- i)\n        self.appendleft(item)\n        self.rotate(i)", "        position = bisect.bisect_left(self, item)\n        self.insert(position, item)")
 M('C16', 'insort-appends', TY, "        i = bisect.bisect_left(self, item)\n        self.rotate(- i)\n        self.appendleft(item)\n        self.rotate(i)", "        self.append(item)", 'C16.5')
 M('C16', 'insort-rotate-back-missing', TY, "        self.appendleft(item)\n        self.rotate(i)", "        self.appendleft(item)", 'C16.5')
+# --- wave 5: context-manager helper around the wrapper body (canon inlines it), yield from, filtered delegation candidates
+_W5_WRAP = "            if key._key is None:\n                raise PGPError(\"No key!\")\n\n            # if a key is in the process of being created, it needs to be allowed to certify its own user id\n            if len(key._uids) == 0 and key.is_primary and action is not key.certify.__wrapped__:\n                raise PGPError(\"Key is not complete - please add a User ID!\")\n\n            with self.usage(key, kwargs.get('user', None)) as _key:\n                self.check_attributes(key)\n\n                # do the thing\n                return action(_key, *args, **kwargs)\n"
+_W5_CALLW = "            with self._component_for(action, key, kwargs.get('user', None)) as _key:\n                return action(_key, *args, **kwargs)\n"
+_W5_HELP = "    @contextlib.contextmanager\n    def _component_for(self, action, key, user):\n        if key._key is None:\n            raise PGPError(\"No key!\")\n\n        if len(key._uids) == 0 and key.is_primary and action is not key.certify.__wrapped__:\n            raise PGPError(\"Key is not complete - please add a User ID!\")\n\n        with self.usage(key, user) as _key:\n            self.check_attributes(key)\n            yield _key\n\n    def __call__(self, action):\n"
+for P in ('C16', 'C07'):
+    T(P, 'twin-call-context-helper', DE, _W5_WRAP, _W5_CALLW, more=[(DE, "    def __call__(self, action):\n", _W5_HELP)])
+M('C16', 'context-helper-yields-before-check', DE, _W5_WRAP, _W5_CALLW, 'C16.2', more=[(DE, "    def __call__(self, action):\n", _W5_HELP.replace("            self.check_attributes(key)\n            yield _key\n", "            yield _key\n            self.check_attributes(key)\n"))])
+M('C07', 'context-helper-drops-check', DE, _W5_WRAP, _W5_CALLW, 'C07.5', more=[(DE, "    def __call__(self, action):\n", _W5_HELP.replace("            self.check_attributes(key)\n", ""))])
+M('C16', 'context-helper-no-key-refusal-lost', DE, _W5_WRAP, _W5_CALLW, 'C16.2', more=[(DE, "    def __call__(self, action):\n", _W5_HELP.replace("        if key._key is None:\n            raise PGPError(\"No key!\")\n\n", ""))])
+M('C16', 'context-helper-yields-addressed-key', DE, _W5_WRAP, _W5_CALLW, 'C16.2', more=[(DE, "    def __call__(self, action):\n", _W5_HELP.replace("            yield _key\n", "            yield key\n"))])
+T('C16', 'twin-preiter-yield-from', DE, "            for item in iterable:\n                yield item\n", "            yield from iterable\n")
+_W5_DEL = "            sks = set(self.subkeys)\n            mis = set(message.encrypters)\n            if sks & mis:\n                skid = list(sks & mis)[0]\n                return self.subkeys[skid].decrypt(message)\n"
+M('C16', 'delegate-only-encryption-subkeys', PGP, _W5_DEL, "            sks = set(kid for kid, sk in self.subkeys.items() if {KeyFlags.EncryptCommunications, KeyFlags.EncryptStorage} & set(sk._get_key_flags()))\n            mis = set(message.encrypters)\n            if sks & mis:\n                skid = list(sks & mis)[0]\n                return self.subkeys[skid].decrypt(message)\n", 'C16.6')
+M('C16', 'delegate-loop-flag-gated', PGP, _W5_DEL, "            for skid, sk in self.subkeys.items():\n                if skid in message.encrypters and KeyFlags.EncryptCommunications in sk._get_key_flags():\n                    return sk.decrypt(message)\n", 'C16.6')
+M('C16', 'delegate-loop-unexpired-only', PGP, _W5_DEL, "            for skid in self.subkeys:\n                if skid in message.encrypters and not self.subkeys[skid].is_expired:\n                    return self.subkeys[skid].decrypt(message)\n", 'C16.6')
 # --- insort evaluated on concrete collections: fast paths that are identities stay silent, wrong ones are reported
 _C16_INS = "        i = bisect.bisect_left(self, item)\n        self.rotate(- i)\n        self.appendleft(item)\n        self.rotate(i)"
 _C16_FAST = "        i = bisect.bisect_left(self, item)\n        if self.maxlen is None:\n            if i == 0:\n                self.appendleft(item)\n                return\n\n            if i == len(self):\n                self.append(item)\n                return\n\n        self.rotate(- i)\n        self.appendleft(item)\n        self.rotate(i)"
@@ -3408,6 +3484,20 @@ M('C10', 'payload-one-line-per-50-octets', TY, _WRAP, "        data = self.__byt
 M('C10', 'payload-pieces-48-step-64', TY, _WRAP, "        data = self.__bytes__()\n        payload = '\\n'.join(base64.b64encode(data[i:(i + 48)]).decode('latin-1') for i in range(0, len(data), 64))\n", 'C10.2')
 M('C10', 'payload-pieces-of-57-octets-lines-of-76-ok-but-reader-64', TY, _WRAP, "        data = self.__bytes__()\n        payload = '\\n'.join(base64.b64encode(data[i:(i + 60)]).decode('latin-1') for i in range(0, len(data), 60))\n", 'C10.3')
 
+# ---- C10 wave-5 lessons: header lines through a generator helper, CR LF on every body line, assembled patterns, table-driven CRC
+_HDRS = "            headers=''.join('{key}: {val}\\n'.format(key=key, val=val) for key, val in self.ascii_headers.items()),"
+T('C10', 'twin-header-lines-generator-helper', TY, _HDRS, "            headers=''.join(self._armor_header_lines()),",
+  more=[(TY, "    def __str__(self):\n        payload = base64", "    def _armor_header_lines(self):\n        for key, val in self.ascii_headers.items():\n            yield '{key}: {val}\\n'.format(key=key, val=val)\n\n    def __str__(self):\n        payload = base64")])
+M('C10', 'header-value-continued-on-further-lines', TY, _HDRS, "            headers=''.join(self._armor_header_lines()),", 'C10.7',
+  more=[(TY, "    def __str__(self):\n        payload = base64", "    def _armor_header_lines(self):\n        for key, val in self.ascii_headers.items():\n            val = str(val)\n            width = max(76 - len(key) - 2, 1)\n            for i in range(0, max(len(val), 1), width):\n                yield '{key}: {val}\\n'.format(key=key, val=val[i:(i + width)])\n\n    def __str__(self):\n        payload = base64")])
+M('C10', 'header-value-split-at-newlines-inline', TY, _HDRS, "            headers=''.join('{}: {}\\n'.format(key, part) for key, val in self.ascii_headers.items() for part in str(val).split('\\n')),", 'C10.7')
+M('C10', 'body-lines-cr-only-on-last', TY, "(?P<body>([A-Za-z0-9+/]{1,76}={,2}(?:\\r?\\n))+)", "(?P<body>(?:[A-Za-z0-9+/]{1,76}\\n)*[A-Za-z0-9+/]{1,76}={,2}(?:\\r?\\n))", 'C10.3')
+M('C10', 'body-lines-lf-only', TY, "(?P<body>([A-Za-z0-9+/]{1,76}={,2}(?:\\r?\\n))+)", "(?P<body>([A-Za-z0-9+/]{1,76}={,2}\\n)+)", 'C10.3')
+T('C10', 'twin-body-lines-last-line-separate', TY, "(?P<body>([A-Za-z0-9+/]{1,76}={,2}(?:\\r?\\n))+)", "(?P<body>(?:[A-Za-z0-9+/]{1,76}={,2}\\r?\\n)*[A-Za-z0-9+/]{1,76}={,2}(?:\\r?\\n))")
+_TD('C10', 'held-out-C10-ref14-crc-lazy-table', '../../twins/C10-ref14/patch.diff')
+_TD('C10', 'held-out-C07-ref16-crc-class-table', '../../twins/C07-ref16/patch.diff')
+_TD('C10', 'held-out-C10-ref16-assembled-pattern', '../../twins/C10-ref16/patch.diff')
+
 # =============================================================================================== C11
 M('C11', 'escape-two-spaces', PGP, "        return re.subn(r'^-', '- -', text, flags=re.MULTILINE)[0]", "        return re.subn(r'^-', '-  -', text, flags=re.MULTILINE)[0]", 'C11.1')
 M('C11', 'unescape-no-multiline', PGP, "        return re.subn(r'^- ', '', text, flags=re.MULTILINE)[0]", "        return re.subn(r'^- ', '', text)[0]", 'C11.1')
@@ -3625,6 +3715,13 @@ M('C11', 'escape-callable-drops-the-dash', PGP, _ESC, "        return re.subn(r'
 M('C11', 'escape-callable-wrong-prefix', PGP, _ESC, "        return re.subn(r'^-', lambda m: '-' + m.group(0), text, flags=re.MULTILINE)[0]", 'C11.1')
 M('C11', 'hashdata-fast-path-no-crlf', PGP, "            _data += re.subn(br'\\r?\\n', b'\\r\\n', subject)[0]", "            if b'\\r\\n' not in subject:\n                _data += subject\n            else:\n                _data += re.subn(br'\\r?\\n', b'\\r\\n', subject)[0]", 'C11.4')
 T('C11', 'twin-hashdata-fast-path-no-lf', PGP, "            _data += re.subn(br'\\r?\\n', b'\\r\\n', subject)[0]", "            if isinstance(subject, (bytes, bytearray)) and b'\\n' not in subject:\n                _data += subject\n            else:\n                _data += re.subn(br'\\r?\\n', b'\\r\\n', subject)[0]")
+
+# ---- C11 wave-5 lessons: a cleartext message stays uncompressed
+M('C11', 'cleartext-new-honours-compression', PGP, "            msg |= lit\n            msg._compression = compression\n", "            msg |= lit\n\n        msg._compression = compression\n", 'C11.2')
+M('C11', 'cleartext-new-compression-before-split', PGP, "        if charset:\n            msg.charset = charset\n", "        if charset:\n            msg.charset = charset\n\n        if compression is not None:\n            msg._compression = compression\n", 'C11.2')
+T('C11', 'twin-new-compression-only-for-literal-else-branch', PGP, "        if cleartext:\n            msg |= message\n\n        else:", "        if cleartext:\n            msg |= message\n            msg._compression = CompressionAlgorithm.Uncompressed\n\n        else:")
+T('C11', 'twin-new-compression-stored-but-export-skips-cleartext', PGP, "            msg |= lit\n            msg._compression = compression\n", "            msg |= lit\n\n        msg._compression = compression\n",
+  more=[(PGP, "    def __bytearray__(self):\n        if self.is_compressed:\n            comp = CompressedData()", "    def __bytearray__(self):\n        if self.is_compressed and self.type != 'cleartext':\n            comp = CompressedData()")])
 
 # =============================================================================================== C09
 M('C09', 'enc-191', TY, "            if 192 > nl:\n                return Header.int_to_bytes(nl)", "            if 191 > nl:\n                return Header.int_to_bytes(nl)", 'C09.1')
@@ -4330,6 +4427,63 @@ M('C08', 'notation-one-del-lengths-swapped', SS, '        self.flags = packet[:1
   '        self.flags = packet[:1]\n        vlen = self.bytes_to_int(packet[4:6])\n        nlen = self.bytes_to_int(packet[6:8])\n        name_end = 8 + nlen\n        value_end = name_end + vlen\n        self.name = packet[8:name_end]\n        self.value = packet[name_end:value_end]\n        del packet[:value_end]\n', 'C08.c')
 M('C08', 'notation-one-del-hole-consumed', SS, '        self.flags = packet[:1]\n        del packet[:4]\n        nlen = self.bytes_to_int(packet[:2])\n        del packet[:2]\n        vlen = self.bytes_to_int(packet[:2])\n        del packet[:2]\n        self.name = packet[:nlen]\n        del packet[:nlen]\n        self.value = packet[:vlen]\n        del packet[:vlen]\n',
   '        self.flags = packet[:1]\n        nlen = self.bytes_to_int(packet[4:6])\n        vlen = self.bytes_to_int(packet[6:8])\n        name_end = 8 + nlen\n        value_end = name_end + vlen\n        self.name = packet[8:name_end]\n        self.value = packet[name_end + 1:value_end + 1]\n        del packet[:value_end + 1]\n', 'C08.a')
+# wave 5: key material dispatch (C08.g), flag subpacket widths (C08.e), EC point widths (C08.c), measured remainder (C08.d), one read / several fields
+M('C08', 'material-priv-entry-public-class', PK, '            (False, PubKeyAlgorithm.FormerlyElGamalEncryptOrSign): ElGPriv,',
+  '            (False, PubKeyAlgorithm.FormerlyElGamalEncryptOrSign): ElGPub,', 'C08.g')
+M('C08', 'material-ecdh-priv-entry-public', PK, '            (False, PubKeyAlgorithm.ECDH): ECDHPriv,',
+  '            (False, PubKeyAlgorithm.ECDH): ECDHPub,', 'C08.g')
+M('C08', 'material-pub-entry-private-class', PK, '            (True, PubKeyAlgorithm.DSA): DSAPub,',
+  '            (True, PubKeyAlgorithm.DSA): DSAPriv,', 'C08.g')
+M('C08', 'material-priv-entry-other-algorithm', PK, '            (False, PubKeyAlgorithm.ElGamal): ElGPriv,',
+  '            (False, PubKeyAlgorithm.ElGamal): DSAPriv,', 'C08.g')
+M('C08', 'material-fallback-always-public', PK, '(km or (OpaquePubKey if self.public else OpaquePrivKey))()',
+  '(km or OpaquePubKey)()', 'C08.g')
+M('C08', 'flags-pad-to-header-length', SS, "        if len(_bytes) < len(self):\n            _bytes += b'\\x00' * (len(self) - len(_bytes))\n        return _bytes\n",
+  "        if len(_bytes) < self.header.length:\n            _bytes += b'\\x00' * (self.header.length - len(_bytes))\n        return _bytes\n", 'C08.e')
+M('C08', 'flags-no-padding', SS, "        if len(_bytes) < len(self):\n            _bytes += b'\\x00' * (len(self) - len(_bytes))\n        return _bytes\n",
+  '        return _bytes\n', 'C08.e')
+M('C08', 'flags-pad-one-short', SS, "        if len(_bytes) < len(self):\n            _bytes += b'\\x00' * (len(self) - len(_bytes))\n        return _bytes\n",
+  "        if len(_bytes) < len(self) - 1:\n            _bytes += b'\\x00' * (len(self) - 1 - len(_bytes))\n        return _bytes\n", 'C08.e')
+M('C08', 'flags-value-wide-as-length', SS, '        _bytes += self.int_to_bytes(sum(self.flags))\n        # null-pad',
+  '        _bytes += self.int_to_bytes(sum(self.flags), self.header.length)\n        # null-pad', 'C08.e')
+M('C08', 'ecpoint-width-floor', FL, '        ct.bytelen = (bitlen + 7) // 8',
+  '        ct.bytelen = bitlen // 8', 'C08.c')
+M('C08', 'ecpoint-width-plus-8', FL, '        ct.bytelen = (bitlen + 7) // 8',
+  '        ct.bytelen = (bitlen + 8) // 8', 'C08.c')
+M('C08', 'ecpoint-writer-minimal-width', FL, '            b += MPIs.int_to_bytes(self.x, self.bytelen)\n            b += MPIs.int_to_bytes(self.y, self.bytelen)',
+  '            b += MPIs.int_to_bytes(self.x, self.bytelen)\n            b += MPIs.int_to_bytes(self.y)', 'C08.c')
+T('C08', 'twin-flags-ljust', SS, "        if len(_bytes) < len(self):\n            _bytes += b'\\x00' * (len(self) - len(_bytes))\n        return _bytes\n",
+  "        return _bytes.ljust(len(self), b'\\x00')\n")
+T('C08', 'twin-ecpoint-width-ceil-div', FL, '        ct.bytelen = (bitlen + 7) // 8',
+  '        ct.bytelen = -(-bitlen // 8)')
+T('C08', 'twin-ecdsa-oid-one-concat', FL, "        oidlen = packet[0]\n        del packet[0]\n        _oid = bytearray(b'\\x06')\n        _oid.append(oidlen)\n        _oid += bytearray(packet[:oidlen])\n        oid, _  = decoder.decode(bytes(_oid))\n        self.oid = EllipticCurveOID(oid)\n        del packet[:oidlen]\n\n        self.p = ECPoint(packet)\n        if self.p.format != ECPointFormat.Standard:",
+  "        oidlen = packet[0]\n        del packet[0]\n        oid, _ = decoder.decode(b'\\x06' + bytes([oidlen]) + bytes(packet[:oidlen]))\n        curve = EllipticCurveOID(oid)\n        del packet[:oidlen]\n        self.oid = curve\n\n        self.p = ECPoint(packet)\n        if self.p.format != ECPointFormat.Standard:")
+M('C08', 'ecdsa-oid-not-consumed', FL, "        oidlen = packet[0]\n        del packet[0]\n        _oid = bytearray(b'\\x06')\n        _oid.append(oidlen)\n        _oid += bytearray(packet[:oidlen])\n        oid, _  = decoder.decode(bytes(_oid))\n        self.oid = EllipticCurveOID(oid)\n        del packet[:oidlen]\n\n        self.p = ECPoint(packet)\n        if self.p.format != ECPointFormat.Standard:",
+  "        oidlen = packet[0]\n        del packet[0]\n        oid, _ = decoder.decode(b'\\x06' + bytes([oidlen]) + bytes(packet[:oidlen]))\n        self.oid = EllipticCurveOID(oid)\n\n        self.p = ECPoint(packet)\n        if self.p.format != ECPointFormat.Standard:", 'C08.a')
+M('C08', 'ecdsa-oid-consumed-short', FL, "        oidlen = packet[0]\n        del packet[0]\n        _oid = bytearray(b'\\x06')\n        _oid.append(oidlen)\n        _oid += bytearray(packet[:oidlen])\n        oid, _  = decoder.decode(bytes(_oid))\n        self.oid = EllipticCurveOID(oid)\n        del packet[:oidlen]\n\n        self.p = ECPoint(packet)\n        if self.p.format != ECPointFormat.Standard:",
+  "        oidlen = packet[0]\n        del packet[0]\n        oid, _ = decoder.decode(b'\\x06' + bytes([oidlen]) + bytes(packet[:oidlen]))\n        self.oid = EllipticCurveOID(oid)\n        del packet[:oidlen - 1]\n\n        self.p = ECPoint(packet)\n        if self.p.format != ECPointFormat.Standard:", 'C08.a')
+T('C08', 'twin-image-struct-size', UA, "        with memoryview(packet) as _head:\n            _, self.version, self.iencoding, _, _, _ = struct.unpack_from('<hbbiii', _head[:16].tobytes())\n        del packet[:16]\n\n        self.image = packet[:(self.header.length - 17)]\n        del packet[:(self.header.length - 17)]",
+  "        hlen = struct.calcsize('<hbbiii')\n        _, self.version, self.iencoding, _, _, _ = struct.unpack_from('<hbbiii', bytes(packet[:hlen]))\n        del packet[:hlen]\n\n        ilen = self.header.length - (1 + hlen)\n        self.image = packet[:ilen]\n        del packet[:ilen]")
+M('C08', 'image-struct-size-remainder-off', UA, "        with memoryview(packet) as _head:\n            _, self.version, self.iencoding, _, _, _ = struct.unpack_from('<hbbiii', _head[:16].tobytes())\n        del packet[:16]\n\n        self.image = packet[:(self.header.length - 17)]\n        del packet[:(self.header.length - 17)]",
+  "        hlen = struct.calcsize('<hbbiii')\n        _, self.version, self.iencoding, _, _, _ = struct.unpack_from('<hbbiii', bytes(packet[:hlen]))\n        del packet[:hlen]\n\n        ilen = self.header.length - hlen\n        self.image = packet[:ilen]\n        del packet[:ilen]", 'C08.d')
+M('C08', 'sig-two-fields-one-octet', PK, '        self.pubalg = packet[0]\n        del packet[0]\n\n        self.halg = packet[0]\n        del packet[0]\n\n        self.subpackets.parse(packet)\n',
+  '        self.pubalg = packet[0]\n        self.halg = packet[0]\n        del packet[0]\n\n        self.subpackets.parse(packet)\n', 'C08.c')
+T('C08', 'twin-message-new-compression-default-late', PGP, "        compression = kwargs.pop('compression', CompressionAlgorithm.ZIP)\n",
+  "        compression = kwargs.pop('compression', None)\n", more=[(PGP, '        if charset:\n            msg.charset = charset\n', '        if charset:\n            msg.charset = charset\n\n        if compression is None:\n            compression = CompressionAlgorithm.ZIP\n\n        if compression is not None:\n            msg._compression = compression\n')])
+T('C08', 'twin-sigv4-repaired', PK, '    def parse(self, packet):\n        super(Signature, self).parse(packet)\n        self.sigtype = packet[0]\n        del packet[0]\n',
+  '    def parse(self, packet):\n        super(Signature, self).parse(packet)\n        plen = len(packet)\n        self.sigtype = packet[0]\n        del packet[0]\n', more=[(PK, '        self.hash2 = packet[:2]\n        del packet[:2]\n\n        self.signature.parse(packet)\n', '        self.hash2 = packet[:2]\n        del packet[:2]\n\n        send = self.header.length - 1 - (plen - len(packet))\n        self.signature.parse(packet[:send])\n        del packet[:send]\n'), (SS, '        super(EmbeddedSignature, self).parse(packet)\n        self._sig.parse(packet)\n', '        super(EmbeddedSignature, self).parse(packet)\n        self._sig.header.length = self.header.length - 1\n        self._sig.parse(packet)\n')])
+T('C08', 'twin-sigv4-repaired-respelled', PK, '    def parse(self, packet):\n        super(Signature, self).parse(packet)\n        self.sigtype = packet[0]\n        del packet[0]\n',
+  '    def parse(self, packet):\n        super(Signature, self).parse(packet)\n        start = len(packet)\n        self.sigtype = packet[0]\n        del packet[0]\n', more=[(PK, '        self.hash2 = packet[:2]\n        del packet[:2]\n\n        self.signature.parse(packet)\n', '        self.hash2 = packet[:2]\n        del packet[:2]\n\n        consumed = start - len(packet)\n        rest = self.header.length - consumed - 1\n        self.signature.parse(packet[:rest])\n        del packet[:rest]\n'), (SS, '        super(EmbeddedSignature, self).parse(packet)\n        self._sig.parse(packet)\n', '        super(EmbeddedSignature, self).parse(packet)\n        self._sig.header.length = self.header.length - 1\n        self._sig.parse(packet)\n')])
+M('C08', 'sigv4-repaired-no-version-octet', PK, '    def parse(self, packet):\n        super(Signature, self).parse(packet)\n        self.sigtype = packet[0]\n        del packet[0]\n',
+  '    def parse(self, packet):\n        super(Signature, self).parse(packet)\n        plen = len(packet)\n        self.sigtype = packet[0]\n        del packet[0]\n', 'C08.d', more=[(PK, '        self.hash2 = packet[:2]\n        del packet[:2]\n\n        self.signature.parse(packet)\n', '        self.hash2 = packet[:2]\n        del packet[:2]\n\n        send = self.header.length - (plen - len(packet))\n        self.signature.parse(packet[:send])\n        del packet[:send]\n'), (SS, '        super(EmbeddedSignature, self).parse(packet)\n        self._sig.parse(packet)\n', '        super(EmbeddedSignature, self).parse(packet)\n        self._sig.header.length = self.header.length - 1\n        self._sig.parse(packet)\n')])
+M('C08', 'sigv4-repaired-minus-2', PK, '    def parse(self, packet):\n        super(Signature, self).parse(packet)\n        self.sigtype = packet[0]\n        del packet[0]\n',
+  '    def parse(self, packet):\n        super(Signature, self).parse(packet)\n        plen = len(packet)\n        self.sigtype = packet[0]\n        del packet[0]\n', 'C08.d', more=[(PK, '        self.hash2 = packet[:2]\n        del packet[:2]\n\n        self.signature.parse(packet)\n', '        self.hash2 = packet[:2]\n        del packet[:2]\n\n        send = self.header.length - 2 - (plen - len(packet))\n        self.signature.parse(packet[:send])\n        del packet[:send]\n'), (SS, '        super(EmbeddedSignature, self).parse(packet)\n        self._sig.parse(packet)\n', '        super(EmbeddedSignature, self).parse(packet)\n        self._sig.header.length = self.header.length - 1\n        self._sig.parse(packet)\n')])
+M('C08', 'sigv4-measured-late', PK, '    def parse(self, packet):\n        super(Signature, self).parse(packet)\n        self.sigtype = packet[0]\n        del packet[0]\n',
+  '    def parse(self, packet):\n        super(Signature, self).parse(packet)\n        self.sigtype = packet[0]\n        del packet[0]\n        plen = len(packet)\n', 'C08.d', more=[(PK, '        self.hash2 = packet[:2]\n        del packet[:2]\n\n        self.signature.parse(packet)\n', '        self.hash2 = packet[:2]\n        del packet[:2]\n\n        send = self.header.length - 1 - (plen - len(packet))\n        self.signature.parse(packet[:send])\n        del packet[:send]\n'), (SS, '        super(EmbeddedSignature, self).parse(packet)\n        self._sig.parse(packet)\n', '        super(EmbeddedSignature, self).parse(packet)\n        self._sig.header.length = self.header.length - 1\n        self._sig.parse(packet)\n')])
+M('C08', 'sigv4-repaired-sign-flipped', PK, '    def parse(self, packet):\n        super(Signature, self).parse(packet)\n        self.sigtype = packet[0]\n        del packet[0]\n',
+  '    def parse(self, packet):\n        super(Signature, self).parse(packet)\n        plen = len(packet)\n        self.sigtype = packet[0]\n        del packet[0]\n', 'C08.d', more=[(PK, '        self.hash2 = packet[:2]\n        del packet[:2]\n\n        self.signature.parse(packet)\n', '        self.hash2 = packet[:2]\n        del packet[:2]\n\n        send = self.header.length - 1 - (len(packet) - plen)\n        self.signature.parse(packet[:send])\n        del packet[:send]\n'), (SS, '        super(EmbeddedSignature, self).parse(packet)\n        self._sig.parse(packet)\n', '        super(EmbeddedSignature, self).parse(packet)\n        self._sig.header.length = self.header.length - 1\n        self._sig.parse(packet)\n')])
+M('C08', 'sigv4-bounded-not-consumed', PK, '    def parse(self, packet):\n        super(Signature, self).parse(packet)\n        self.sigtype = packet[0]\n        del packet[0]\n',
+  '    def parse(self, packet):\n        super(Signature, self).parse(packet)\n        plen = len(packet)\n        self.sigtype = packet[0]\n        del packet[0]\n', 'C08.a', more=[(PK, '        self.hash2 = packet[:2]\n        del packet[:2]\n\n        self.signature.parse(packet)\n', '        self.hash2 = packet[:2]\n        del packet[:2]\n\n        send = self.header.length - 1 - (plen - len(packet))\n        self.signature.parse(packet[:send])\n'), (SS, '        super(EmbeddedSignature, self).parse(packet)\n        self._sig.parse(packet)\n', '        super(EmbeddedSignature, self).parse(packet)\n        self._sig.header.length = self.header.length - 1\n        self._sig.parse(packet)\n')])
 # --- end C08 hardening
 M('C09', 'old-tag-shift', PT, "        tag |= (self.tag) if self._lenfmt else ((self.tag << 2) | {1: 0, 2: 1, 4: 2, 0: 3}[self.llen])", "        tag |= (self.tag) if self._lenfmt else ((self.tag << 1) | {1: 0, 2: 1, 4: 2, 0: 3}[self.llen])", 'C09.8')
 M('C09', 'tag-mask-1f', PT, "        _tag = (val & 0x3F) if self._lenfmt else ((val & 0x3C) >> 2)", "        _tag = (val & 0x1F) if self._lenfmt else ((val & 0x3C) >> 2)", 'C09.8')
@@ -5021,3 +5175,56 @@ M('C05', 'load-composition-normalises-version', PGP, "        if isinstance(othe
   "        if isinstance(other, Signature):\n            if self._signature is None:\n                self._signature = other\n                other.header.version = 4\n                return self\n", 'C05.1')
 M('C05', 'load-setattr-pubalg', PGP, _LOADP, "            else:\n                self._signature = pkt\n                if pkt.pubalg in (PubKeyAlgorithm.RSAEncrypt, PubKeyAlgorithm.RSASign):\n                    setattr(pkt, 'pubalg', PubKeyAlgorithm.RSAEncryptOrSign)\n        else:\n            raise ValueError('Expected: Signature. Got: {:s}'.format(pkt.__class__.__name__))", 'C05.1')
 T('C05', 'twin-load-reads-header-fields-only', PGP, _LOADP, "            else:\n                sigtype, halg = pkt.sigtype, pkt.halg\n                self._signature = pkt\n        else:\n            raise ValueError('Expected: Signature. Got: {:s}'.format(pkt.__class__.__name__))")
+
+# ---- wave 5: generator helpers, table-driven codecs, streaming compressors, text codec, widths
+T('C14', 'twin-stream-generator-helper', PGP, "        def _getpkt(d):\n            return Packet(d) if d else None\n        # some packets are filtered out\n" + TRUST, "        getpkt = self._iter_packets(data, skip=(PacketTag.Trust,))\n",
+  more=[(PGP, "    def parse(self, data):\n        unarmored = self.ascii_unarmor(data)\n        data = unarmored['body']\n\n        if unarmored['magic'] is not None and 'KEY' not in unarmored['magic']:",
+         "    @staticmethod\n    def _iter_packets(data, skip=(PacketTag.Trust,)):\n        while data:\n            pkt = Packet(data)\n            if pkt.header.tag not in skip:\n                yield pkt\n\n"
+         "    def parse(self, data):\n        unarmored = self.ascii_unarmor(data)\n        data = unarmored['body']\n\n        if unarmored['magic'] is not None and 'KEY' not in unarmored['magic']:")])
+M('C14', 'stream-generator-skips-nothing', PGP, "        def _getpkt(d):\n            return Packet(d) if d else None\n        # some packets are filtered out\n" + TRUST, "        getpkt = self._iter_packets(data, skip=())\n", 'C14.3',
+  more=[(PGP, "    def parse(self, data):\n        unarmored = self.ascii_unarmor(data)\n        data = unarmored['body']\n\n        if unarmored['magic'] is not None and 'KEY' not in unarmored['magic']:",
+         "    @staticmethod\n    def _iter_packets(data, skip=(PacketTag.Trust,)):\n        while data:\n            pkt = Packet(data)\n            if pkt.header.tag not in skip:\n                yield pkt\n\n"
+         "    def parse(self, data):\n        unarmored = self.ascii_unarmor(data)\n        data = unarmored['body']\n\n        if unarmored['magic'] is not None and 'KEY' not in unarmored['magic']:")])
+M('C14', 'stream-generator-also-skips-attributes', PGP, "        def _getpkt(d):\n            return Packet(d) if d else None\n        # some packets are filtered out\n" + TRUST, "        getpkt = self._iter_packets(data, skip=(PacketTag.Trust, PacketTag.UserAttribute))\n", 'C14.3',
+  more=[(PGP, "    def parse(self, data):\n        unarmored = self.ascii_unarmor(data)\n        data = unarmored['body']\n\n        if unarmored['magic'] is not None and 'KEY' not in unarmored['magic']:",
+         "    @staticmethod\n    def _iter_packets(data, skip=(PacketTag.Trust,)):\n        while data:\n            pkt = Packet(data)\n            if pkt.header.tag not in skip:\n                yield pkt\n\n"
+         "    def parse(self, data):\n        unarmored = self.ascii_unarmor(data)\n        data = unarmored['body']\n\n        if unarmored['magic'] is not None and 'KEY' not in unarmored['magic']:")])
+GENEXPORT = ("        for component in self._export_sequence():\n            _bytes = component.__bytearray__() if False else _bytes\n")
+EXPORT_GEN_NEW = ("        _bytes = bytearray()\n        for component in self._export_sequence():\n            _bytes += component.__bytearray__()\n\n        return _bytes\n\n"
+                  "    def _export_sequence(self):\n        yield self._key\n        for sig in self._signatures:\n            if not sig.embedded and sig.exportable:\n                yield sig\n"
+                  "        for uid in self._uids:\n            yield uid._uid\n            yield from [s for s in uid._signatures if s.exportable]\n        for subkey in self._children.values():\n            yield subkey\n")
+T('C14', 'twin-export-generator-sequence', PGP, EXPORT, EXPORT_GEN_NEW)
+M('C14', 'export-generator-uid-sigs-unfiltered', PGP, EXPORT, EXPORT_GEN_NEW.replace("yield from [s for s in uid._signatures if s.exportable]", "yield from uid._signatures"), 'C14.1')
+M('C14', 'export-generator-subkeys-first', PGP, EXPORT, EXPORT_GEN_NEW.replace("        for subkey in self._children.values():\n            yield subkey\n", "").replace("        yield self._key\n", "        yield self._key\n        for subkey in self._children.values():\n            yield subkey\n"), 'C14.1')
+M('C14', 'ecpoint-width-rounded-down', FL, "(bitlen + 7) // 8", "bitlen // 8", 'C14.7')
+M('C20', 'literal-text-utf8-sig', PK, "        if self.format == 'u':\n            return self._contents.decode('utf-8')", "        if self.format == 'u':\n            return self._contents.decode('utf-8-sig')", 'C20.6')
+M('C20', 'literal-text-t-as-utf8', PK, "        if self.format == 't':\n            return self._contents.decode('latin-1')", "        if self.format == 't':\n            return self._contents.decode('utf-8', 'replace')", 'C20.6')
+T('C20', 'twin-literal-text-default-codec', PK, "        if self.format == 'u':\n            return self._contents.decode('utf-8')", "        if self.format == 'u':\n            return self._contents.decode()")
+M('C20', 'encrypt-works-on-message-copy', PGP, "        if message.is_encrypted:  # pragma: no cover\n            _m = message\n", "        if message.is_encrypted:  # pragma: no cover\n            _m = copy.copy(message)\n", 'C20.8')
+STREAM = ("        if self is CompressionAlgorithm.ZLIB:\n            return zlib.compress(data)\n\n        if self is CompressionAlgorithm.BZ2:\n            return bz2.compress(data)\n")
+M('C20', 'zlib-streamed-tail-from-end', CO, STREAM, "        if self is CompressionAlgorithm.ZLIB:\n            comp = zlib.compressobj()\n            out = bytearray()\n            for i in range(len(data) // 65536):\n                out += comp.compress(data[i * 65536:(i + 1) * 65536])\n            out += comp.compress(data[-(len(data) % 65536):])\n            out += comp.flush()\n            return bytes(out)\n\n        if self is CompressionAlgorithm.BZ2:\n            return bz2.compress(data)\n", 'C20.5')
+T('C20', 'twin-zlib-streamed-partition', CO, STREAM, "        if self is CompressionAlgorithm.ZLIB:\n            comp = zlib.compressobj()\n            out = bytearray()\n            nblocks = len(data) // 65536\n            for i in range(nblocks):\n                out += comp.compress(data[i * 65536:(i + 1) * 65536])\n            out += comp.compress(data[nblocks * 65536:])\n            out += comp.flush()\n            return bytes(out)\n\n        if self is CompressionAlgorithm.BZ2:\n            return bz2.compress(data)\n")
+
+# =============================================================================================== C18 wave 5 (w4 seeded shapes, twin C16-ref16)
+T('C18', 'twin-new-packet-attached-at-creation', PGP, "        sigpkt = SignatureV4()\n        sigpkt.header.tag = 2", "        sigpkt = sig._signature = SignatureV4()\n        sigpkt.header.tag = 2",
+  more=[(PGP, "        sigpkt.subpackets.addnew('Issuer', _issuer=signer)\n", "        sig._name_issuer_keyid(signer)\n"),
+        (PGP, "            sigpkt.halg = halg\n\n        sig._signature = sigpkt\n        return sig\n", "            sigpkt.halg = halg\n\n        return sig\n\n    def _name_issuer_keyid(self, keyid):\n        self._signature.subpackets.addnew('Issuer', _issuer=keyid)\n\n    def _name_issuer_fingerprint(self, fingerprint):\n        self._signature.subpackets.addnew('IssuerFingerprint', hashed=True, _version=4, _issuer_fpr=fingerprint)\n"),
+        (PGP, "                sig._signature.subpackets.addnew('IssuerFingerprint', hashed=True, _version=4, _issuer_fpr=self.fingerprint)", "                sig._name_issuer_fingerprint(self.fingerprint)")])
+M('C18', 'new-issuer-helper-names-wrong-argument', PGP, "        sigpkt = SignatureV4()\n        sigpkt.header.tag = 2", "        sigpkt = sig._signature = SignatureV4()\n        sigpkt.header.tag = 2",
+  'C18.7', more=[(PGP, "        sigpkt.subpackets.addnew('Issuer', _issuer=signer)\n", "        sig._name_issuer_keyid(signer[-8:])\n"),
+        (PGP, "            sigpkt.halg = halg\n\n        sig._signature = sigpkt\n        return sig\n", "            sigpkt.halg = halg\n\n        return sig\n\n    def _name_issuer_keyid(self, keyid):\n        self._signature.subpackets.addnew('Issuer', _issuer=keyid)\n")])
+M('C18', 'pkalg-deprecated-rsa-ids-folded', PK, "        self._pkalg = PubKeyAlgorithm(val)\n\n        _c = {\n            # True means public", "        self._pkalg = PubKeyAlgorithm(val)\n        if self._pkalg in {PubKeyAlgorithm.RSAEncrypt, PubKeyAlgorithm.RSASign}:\n            self._pkalg = PubKeyAlgorithm.RSAEncryptOrSign\n\n        _c = {\n            # True means public", 'C18.11')
+M('C18', 'pkalg-setter-renumbers-elgamal-alias', PK, "        self._pkalg = PubKeyAlgorithm(val)\n\n        _c = {\n            # True means public", "        self._pkalg = PubKeyAlgorithm(16 if val == 20 else val)\n\n        _c = {\n            # True means public", 'C18.11')
+T('C18', 'twin-intended-recipient-temporaries', PGP, "                sig._signature.subpackets.addnew('IntendedRecipient', hashed=True, version=4,\n                                                 intended_recipient=intended_recipient.fingerprint)",
+  "                named = intended_recipient\n                fpr = named.fingerprint\n                sig._signature.subpackets.addnew('IntendedRecipient', True, intended_recipient=fpr, version=4)")
+M('C18', 'intended-recipient-resolved-to-encryption-subkey', PGP, "                sig._signature.subpackets.addnew('IntendedRecipient', hashed=True, version=4,\n                                                 intended_recipient=intended_recipient.fingerprint)",
+  "                rcpt = next((k for k in intended_recipient.subkeys.values()), intended_recipient)\n                sig._signature.subpackets.addnew('IntendedRecipient', hashed=True, version=4,\n                                                 intended_recipient=rcpt.fingerprint)", 'C18.7')
+M('C18', 'intended-recipient-names-signer', PGP, "                sig._signature.subpackets.addnew('IntendedRecipient', hashed=True, version=4,\n                                                 intended_recipient=intended_recipient.fingerprint)",
+  "                sig._signature.subpackets.addnew('IntendedRecipient', hashed=True, version=4,\n                                                 intended_recipient=self.fingerprint)", 'C18.7')
+M('C18', 'intended-recipient-primary-of-named-subkey', PGP, "                sig._signature.subpackets.addnew('IntendedRecipient', hashed=True, version=4,\n                                                 intended_recipient=intended_recipient.fingerprint)",
+  "                sig._signature.subpackets.addnew('IntendedRecipient', hashed=True, version=4,\n                                                 intended_recipient=(intended_recipient.parent or intended_recipient).fingerprint)", 'C18.7')
+_IR = "                sig._signature.subpackets.addnew('IntendedRecipient', hashed=True, version=4,\n                                                 intended_recipient=intended_recipient.fingerprint)\n            elif isinstance(intended_recipient, Fingerprint):\n                # FIXME: what if it's not a v4 fingerprint?\n                sig._signature.subpackets.addnew('IntendedRecipient', hashed=True, version=4,\n                                                 intended_recipient=intended_recipient)\n            else:\n                warnings.warn(\"Intended Recipient is not a PGPKey, ignoring\")\n"
+T('C18', 'twin-intended-recipient-one-shared-call', PGP, _IR,
+  "                recipient_fpr = intended_recipient.fingerprint\n            elif isinstance(intended_recipient, Fingerprint):\n                recipient_fpr = intended_recipient\n            else:\n                warnings.warn(\"Intended Recipient is not a PGPKey, ignoring\")\n                continue\n\n            sig._signature.subpackets.addnew('IntendedRecipient', hashed=True, version=4,\n                                             intended_recipient=recipient_fpr)\n")
+M('C18', 'intended-recipient-shared-call-one-arm-derived', PGP, _IR,
+  "                recipient_fpr = (intended_recipient.parent or intended_recipient).fingerprint\n            elif isinstance(intended_recipient, Fingerprint):\n                recipient_fpr = intended_recipient\n            else:\n                warnings.warn(\"Intended Recipient is not a PGPKey, ignoring\")\n                continue\n\n            sig._signature.subpackets.addnew('IntendedRecipient', hashed=True, version=4,\n                                             intended_recipient=recipient_fpr)\n", 'C18.7')
